@@ -615,6 +615,44 @@ class Hist(Scenario):
             self.do_edit(author=rng.choice(self.sessions), f=rng.choice(others), kinds=["ins"])
         self.commit_all("after abandoned pick")
 
+    def op_stash_during_stopped_cherry_pick(self):
+        """A cherry-pick stops on a conflict (a person's line on both sides); the person resolves it by hand and stages the file; an
+        agent then adds lines to the same file; the half-done pick is put aside with `git stash`; an unrelated commit moves HEAD;
+        `git stash pop`, add, commit."""
+        rng = self.rng
+        tr = [x for x in self.files if x in self.tracked() and self.read(x)]
+        if len(tr) < 2:
+            return "skipped"
+        base_branch = self.current_branch() or "main"
+        src = self.new_branch_name("sp")
+        f = rng.choice(tr)
+        g = rng.choice([x for x in tr if x != f])
+        lines = self.read(f)
+        self.g("checkout", "-q", "-b", src)
+        l2 = list(lines); l2[0] = self.fresh("human", hostile=False); self.write(f, l2); self.commit_all("sp src: a person changes line 1")
+        self.g("checkout", "-q", base_branch)
+        l3 = list(lines); l3[0] = self.fresh("human", hostile=False); self.write(f, l3); self.commit_all("sp upstream: a person changes line 1 too")
+        self.g("cherry-pick", src)
+        self.ops.append("cherry-pick:stash-while-stopped")
+        if "CHERRY_PICK_HEAD" not in self.in_progress():
+            return "no-conflict"
+        l4 = list(lines); l4[0] = self.fresh("human", hostile=False)
+        self.write(f, l4)
+        self.g("add", "--", f)
+        who = rng.choice(self.sessions)
+        self.do_edit(author=who, f=f, kinds=["ins"])
+        self.g("stash")
+        self.do_edit(author="human", f=g, kinds=["ins"])
+        self.g("commit", "-q", "-a", "-m", "unrelated commit while the pick is put aside")
+        self.g("stash", "pop")
+        if self.unmerged():
+            self.resolve_conflicts(how="theirs")
+        self.g("add", "-A")
+        self.g("commit", "-q", "-m", "the put-aside work")
+        if self.in_progress():
+            self.g("cherry-pick", "--abort")
+        return "done"
+
     def op_cherry_pick_concluded_by_commit(self):
         """`git cherry-pick C1 C2` stops on a conflict in a file only people touched; the person resolves it and concludes the pick
         with a plain `git commit` (so the first rewritten commit gets its note from the ordinary post-commit path), then
